@@ -299,6 +299,8 @@ type codecOp struct {
 	pos   token.Pos
 	sub   []token.Pos // positions inside helpers, outermost first, when the op was found through a helper call
 	count int         // for an op in a loop over a fixed-size array: the number of iterations (0 = not known)
+	param int         // 1 + index of the parameter of the function the op is in whose (dynamic) type is what is written/read: the type is taken from the call site; 0 = none
+	dst   int         // 1 + index of the parameter that is the destination/source stream; 0 = none
 }
 
 // constTrips: b lies in exactly one loop and that loop is a range over an array of constant length: its length.
@@ -355,9 +357,42 @@ func codecOpsD(p *Prog, f *ssa.Function, write bool, depth int) []codecOp {
 			}
 			var data, order ssa.Value
 			typ := ""
+			dstIdx := 0
 			args := call.Call.Args
 			if g := call.Call.StaticCallee(); g != nil && g != f && g.Pkg == f.Pkg && len(g.Blocks) > 0 && depth < 3 {
 				for _, o := range codecOpsD(p, g, write, depth+1) {
+					if o.dst > 0 {
+						// the stream is the caller's argument: a write of the whole buffer to the file is not a field
+						if o.dst-1 < len(args) && write && osFileOperand(args[o.dst-1]) != nil {
+							continue
+						}
+						o.dst = 0
+					}
+					if o.param > 0 {
+						// the value's type is the caller's: stage(int64(len(data))), stage(data)
+						if o.param-1 >= len(args) {
+							continue
+						}
+						dv := args[o.param-1]
+						if mi, ok := dv.(*ssa.MakeInterface); ok {
+							dv = mi.X
+						}
+						o.param = 0
+						if pr, isParam := dv.(*ssa.Parameter); isParam && types.IsInterface(pr.Type()) {
+							for i, q := range f.Params {
+								if q == pr {
+									o.param = i + 1
+								}
+							}
+						}
+						t := dv.Type()
+						if !write {
+							if pt, ok := t.Underlying().(*types.Pointer); ok {
+								t = pt.Elem()
+							}
+						}
+						o.typ = normType(t)
+					}
 					o.loop = o.loop || inLoop(b)
 					o.sub = append([]token.Pos{o.pos}, o.sub...)
 					o.pos = instrPos(ins)
@@ -387,6 +422,13 @@ func codecOpsD(p *Prog, f *ssa.Function, write bool, depth int) []codecOp {
 					if osFileOperand(args[0]) != nil {
 						continue // container-level write of the whole buffer to the file
 					}
+					if pr, isParam := args[0].(*ssa.Parameter); isParam {
+						for i, q := range f.Params {
+							if q == pr {
+								dstIdx = i + 1
+							}
+						}
+					}
 					order, data = args[1], args[2]
 				case !write && funcIs(obj, "encoding/binary", "", "Read") && len(args) == 3:
 					order, data = args[1], args[2]
@@ -396,10 +438,18 @@ func codecOpsD(p *Prog, f *ssa.Function, write bool, depth int) []codecOp {
 			} else {
 				continue
 			}
+			paramIdx := 0
 			if typ == "" {
 				dv := data
 				if mi, ok := dv.(*ssa.MakeInterface); ok {
 					dv = mi.X
+				}
+				if pr, isParam := dv.(*ssa.Parameter); isParam && types.IsInterface(pr.Type()) {
+					for i, q := range f.Params {
+						if q == pr {
+							paramIdx = i + 1
+						}
+					}
 				}
 				t := dv.Type()
 				if !write {
@@ -409,7 +459,7 @@ func codecOpsD(p *Prog, f *ssa.Function, write bool, depth int) []codecOp {
 				}
 				typ = normType(t)
 			}
-			ops = append(ops, codecOp{typ: typ, order: orderName(order), loop: inLoop(b), count: constTrips(f, b), pos: instrPos(ins)})
+			ops = append(ops, codecOp{typ: typ, order: orderName(order), loop: inLoop(b), count: constTrips(f, b), pos: instrPos(ins), param: paramIdx, dst: dstIdx})
 		}
 	}
 	sort.SliceStable(ops, func(i, j int) bool {
